@@ -156,6 +156,21 @@ func c01Run(c *mc.Ctx) {
 		one(cv{K: "string", S: s}, n <= 16385)
 		one(cv{K: "binary", S: s}, n <= 16385)
 	}
+	// strings beyond every internal threshold (1 MiB span, 8/16/32 MiB): in-memory and stream writers/readers
+	for _, n := range []int{1<<20 + 1, 8 << 20, 8<<20 + 1, 1<<24 - 1, 1<<24 + 1, 33<<20 + 5} {
+		if !c.Mine() {
+			continue
+		}
+		v := cv{K: "binary", S: c01Str(n)}
+		if n&1 == 1 {
+			v.K = "string"
+		}
+		c.Distinct(v.K, n)
+		c01Check(c, c01Case{Vals: []cv{v}, Mode: "all"}, true, true, false)
+		for _, env := range []EnvCfg{{}, {Chunk: 65536, ErrWithLast: true}, {Chunk: 1<<20 + 7, ZeroReads: 1}} {
+			c01Check(c, c01Case{Vals: []cv{v}, Env: env, Mode: "stream"}, false, false, true)
+		}
+	}
 	all := make([]byte, 256)
 	for i := range all {
 		all[i] = byte(i)
@@ -164,7 +179,7 @@ func c01Run(c *mc.Ctx) {
 		one(cv{K: "string", S: all}, true)
 		one(cv{K: "binary", S: all}, true)
 	}
-	c.Done(fmt.Sprintf("strings/binaries of %d length classes 0..65537 with non-UTF-8 content + the 256-byte string 00..ff, every fragmentation policy up to 16385 bytes", len(c01StrLens)))
+	c.Done(fmt.Sprintf("strings/binaries of %d length classes 0..65537 with non-UTF-8 content (+ 6 lengths from 1 MiB to 33 MiB) + the 256-byte string 00..ff, every fragmentation policy up to 16385 bytes", len(c01StrLens)))
 	// (d) sequences of <= 3 values over a 14-kind alphabet, written back to back and read back in order
 	alpha := []cv{
 		{K: "bool", I: 1}, {K: "byte", I: 0x81}, {K: "i16", I: 0x8001}, {K: "i32", I: 0x80000001}, {K: "i64", I: 0x8000000000000001},
